@@ -16,7 +16,7 @@
 (* for every transition, the chain and, for every state of the chain, what *)
 (* the restarted service must answer to the recovery probes.               *)
 (***************************************************************************)
-EXTENDS VizierService
+EXTENDS VizierService, IOUtils
 
 RECURSIVE Fold(_, _)
 Fold(a, h) == IF h = <<>> THEN a ELSE Fold(Apply(a, Head(h)).st, Tail(h))
@@ -110,4 +110,40 @@ PostCrashWellFormed == hist # <<>> => \A i \in DOMAIN PostCrash : WellFormedStat
 \* clients can continue after any crash (this is the clause the unchanged code does not satisfy inside SuggestTrials)
 PostCrashUsable == hist # <<>> => \A i \in DOMAIN PostCrash : \A w \in Clients :
     (StudyPresent(PostCrash[i], StudyOf) /\ ~Immutable(PostCrash[i], StudyOf) /\ Room(PostCrash[i], StudyOf)) => Probe(PostCrash[i], StudyOf, w).usable
+
+\* ---- crash images of SuggestTrials that are not an element of the chain above.
+\* The chain is the order in which TODAY's code commits; C05 does not fix that order for a call that touches several
+\* resources: it asks that what was acknowledged before is intact, every trial is in a legal state, ids are unique and
+\* increasing, and clients can continue.  PartialSuggest(a, c, g): g is SOME partial application of the call c to a.
+PartialSuggest(a, c, g) ==
+  LET s == c.s  w == c.w  env == c.env
+      q == SuggestParts(a, s, w, c.n, env)
+      old == IdsOf(a, s)
+      new == IdsOf(g, s) \ old
+      turned == {t \in old : g.trial[s][t] # a.trial[s][t]}
+      opsA == a.ops[s][w]
+      opsG == g.ops[s][w]
+      Closed(o) == IF o.done THEN o ELSE [o EXCEPT !.done = TRUE, !.err = TRUE]
+  IN /\ g.owner = a.owner
+     /\ \A s2 \in Studies \ {s} : g.study[s2] = a.study[s2] /\ g.trial[s2] = a.trial[s2] /\ g.ops[s2] = a.ops[s2] /\ g.es[s2] = a.es[s2]
+     /\ g.study[s] # Absent /\ g.study[s].state = a.study[s].state /\ g.study[s].cfg = a.study[s].cfg
+     /\ \A x \in Cells : g.study[s].meta[x] \in {a.study[s].meta[x], Merge(a.study[s].meta, env.md)[x]}
+     /\ g.es[s] = a.es[s]
+     /\ old \subseteq IdsOf(g, s)
+     /\ \A t \in turned : a.trial[s][t].state = "REQUESTED" /\ g.trial[s][t] = [a.trial[s][t] EXCEPT !.state = "ACTIVE", !.client = w]
+     /\ Cardinality(turned) <= q.takeN
+     /\ \A t \in new : /\ \A u \in old : u < t
+                        /\ \E j \in DOMAIN env.ps : g.trial[s][t] \in {NewTrial("ACTIVE", w, env.ps[j], None), NewTrial("REQUESTED", None, env.ps[j], None)}
+     /\ Cardinality(new) <= Len(env.ps)
+     /\ (new # {} => ~env.raise)
+     /\ \A w2 \in Clients \ {w} : g.ops[s][w2] = a.ops[s][w2]
+     /\ Len(opsG) \in {Len(opsA), Len(opsA) + 1}
+     /\ \A i \in DOMAIN opsA : opsG[i] \in {opsA[i], Closed(opsA[i])}
+     /\ ActiveHasOwner(g) /\ RequestedUnowned(g)
+
+CrashObs == JsonDeserialize(IOEnv.TRACE_FILE)
+PartialVerdict(o) == IF o.call.rpc = "SuggestTrials" /\ StudyGuard(o.pre, o.call.s) = None /\ PartialSuggest(o.pre, o.call, o.got) THEN "partial_ok" ELSE "torn"
+JudgeCrash == \A i \in DOMAIN CrashObs : PrintT(<<"PV", i, PartialVerdict(CrashObs[i])>>)
+JInit == st = InitSt /\ resp = [err |-> None, val |-> None] /\ hist = <<>> /\ JudgeCrash
+JSpec == JInit /\ [][FALSE]_vars
 =============================================================================
